@@ -170,8 +170,8 @@ class ConfigService:
         :param filename: the frame file name
         :return: True if add frame, else False
         """
-        in_app_include = self.IN_APP_INCLUDE
-        in_app_exclude = self.IN_APP_EXCLUDE
+        in_app_include = self.__as_path_list(self.IN_APP_INCLUDE)
+        in_app_exclude = self.__as_path_list(self.IN_APP_EXCLUDE)
 
         for path in in_app_exclude:
             if filename.startswith(path):
@@ -185,6 +185,15 @@ class ConfigService:
             return True, self.APP_ROOT
 
         return False, None
+
+    @staticmethod
+    def __as_path_list(value) -> List[str]:
+        """Get a list of paths from a config value that is a list, or a string of comma separated values."""
+        if value is None:
+            return []
+        if isinstance(value, str):
+            return [path for path in value.split(',') if path]
+        return list(value)
 
     def _find_plugin(self, plugin_type) -> PLUGIN_TYPE:
         return next(self.__plugin_generator(plugin_type), None)
